@@ -14,7 +14,7 @@
    recorded as known findings; they were repaired by the fix: commits 1ef8815 and 744966c, the model follows the
    repaired code, and the witnesses stay in corpus/C13 (findings/C13.json: status fixed). *)
 From Coq Require Import ZArith NArith List.
-From BHS Require Import Store ChainSpec ChainMain Locator LocatorProofs.
+From BHS Require Import Store ChainSpec ChainInv ChainMain Locator LocatorProofs.
 Import ListNotations.
 Open Scope Z_scope.
 
@@ -64,7 +64,7 @@ Theorem C13_locate_safe : forall s locs stop, Valid s ->
   let l := answer (locate s locs stop) in
   (length l <= Z.to_nat cap)%nat /\ linked l /\
   (forall r, In r l -> In r s /\ st r = Longest /\ anchor s locs < height r) /\
-  l = seg s (anchor s locs + 1) (length l).
+  l = seg (main_chain s) (anchor s locs + 1) (length l).
 Proof. exact locate_safe_thm. Qed.
 
 (* what the specification says: start = highest locator entry on the main chain (0 if none); a contiguous,
@@ -73,7 +73,7 @@ Proof. exact locate_safe_thm. Qed.
 Theorem C13_spec_meaning : forall s locs stop, Valid s ->
   let a := anchor s locs in let l := spec_locate s locs stop in
   is_anchor (main_chain s) (fun r => memN (id r) locs) a /\
-  l = seg s (a + 1) (length l) /\ (length l <= Z.to_nat cap)%nat /\ linked l /\
+  l = seg (main_chain s) (a + 1) (length l) /\ (length l <= Z.to_nat cap)%nat /\ linked l /\
   (forall r, In r l -> In r s /\ st r = Longest) /\
   (forall x, In x (main_chain s) -> id x = stop ->
      (height x <= a -> l = []) /\
@@ -97,6 +97,73 @@ Theorem C13_example_locate :
   map id (answer (locate ex_store [] 0%N)) = [2%N; 7%N].
 Proof. exact locate_example. Qed.
 
+(* ================= every history, zero-work headers included =================
+   The theorems above assume Valid s, which ChainMain.reachable_valid delivers for positive-work histories.
+   ChainFields.reachable_inv delivers `exists tip, Inv s tip` for EVERY history of nonzero ids.  Under it the same
+   facts hold with "the longest chain" read as tip_chain s = the ancestors of the header the repository reports as
+   tip = exactly the rows labelled LONGEST_CHAIN (C13_tip_chain_any_work); under Valid that is main_chain s
+   (C13_tip_chain_valid), so the two families coincide there. *)
+Theorem C13_tip_chain_any_work : forall s, (exists tip, Inv s tip) ->
+  tip_chain s = filter isL (orev s) /\
+  exists t, tipB s = Some t /\ tip_chain s = rev (chain s (id t)) /\ asc_from 0 (tip_chain s) /\ linked (tip_chain s).
+Proof. exact tip_chain_any_work. Qed.
+
+Theorem C13_tip_chain_valid : forall s, Valid s -> tip_chain s = main_chain s.
+Proof. exact tip_chain_valid. Qed.
+
+Theorem C13_locator_is_spec_any_work : forall s, (exists tip, Inv s tip) ->
+  latest_locator s = Some (spec_locator_mc (tip_chain s)).
+Proof. exact latest_locator_any_work. Qed.
+
+Theorem C13_locator_shape_any_work : forall s, (exists tip, Inv s tip) ->
+  exists t hs,
+    tipB s = Some t /\
+    latest_locator s = Some (map (at_height_mc (tip_chain s)) hs) /\
+    hd 0%N (map (at_height_mc (tip_chain s)) hs) = id t /\ hd 0 hs = height t /\
+    last (map (at_height_mc (tip_chain s)) hs) 0%N = genesis_id s /\ last hs 0 = 0 /\
+    shape Datatypes.O hs /\
+    (forall pre a b post, hs = pre ++ a :: b :: post -> b < a) /\
+    (forall h, In h hs -> exists r, In r s /\ st r = Longest /\ height r = h /\ id r = at_height_mc (tip_chain s) h).
+Proof. exact locator_shape_any_work. Qed.
+
+Theorem C13_locator_length_any_work : forall s t, (exists tip, Inv s tip) -> tipB s = Some t -> height t < 2 ^ 31 ->
+  exists l, latest_locator s = Some l /\ Z.of_nat (length l) = max_entries (height t) /\ max_entries (height t) <= 43.
+Proof. exact locator_length_any_work. Qed.
+
+Theorem C13_locate_any_work : forall s locs stop, (exists tip, Inv s tip) ->
+  answer (locate s locs stop) = spec_locate_mc (tip_chain s) locs stop.
+Proof. exact locate_any_work. Qed.
+
+Theorem C13_locate_safe_any_work : forall s locs stop, (exists tip, Inv s tip) ->
+  let l := answer (locate s locs stop) in
+  (length l <= Z.to_nat cap)%nat /\ linked l /\
+  (forall r, In r l -> In r s /\ st r = Longest /\ anchor_mc (tip_chain s) locs < height r) /\
+  l = seg (tip_chain s) (anchor_mc (tip_chain s) locs + 1) (length l).
+Proof. exact locate_safe_any_work. Qed.
+
+Theorem C13_spec_meaning_any_work : forall s locs stop, (exists tip, Inv s tip) ->
+  let mc := tip_chain s in let a := anchor_mc mc locs in let l := spec_locate_mc mc locs stop in
+  is_anchor mc (fun r => memN (id r) locs) a /\
+  l = seg mc (a + 1) (length l) /\ (length l <= Z.to_nat cap)%nat /\ linked l /\
+  (forall r, In r l -> In r s /\ st r = Longest) /\
+  (forall x, In x mc -> id x = stop ->
+     (height x <= a -> l = []) /\
+     (a < height x <= a + cap -> last l x = x) /\
+     (a + cap < height x -> length l = Z.to_nat cap)) /\
+  ((forall x, In x mc -> id x <> stop) ->
+     Z.of_nat (length l) = Z.min cap (Z.of_nat (length mc) - 1 - a)).
+Proof. exact spec_locate_meaning_any_work. Qed.
+
+(* satisfiable on a store reached through a zero-work header (G, A, zero-work Z on A: Z is the reported tip) *)
+Theorem C13_example_any_work :
+  (exists tip, Inv zw_store tip) /\
+  map id (tip_chain zw_store) = [1%N; 2%N; 3%N] /\
+  latest_locator zw_store = Some [3%N; 2%N; 1%N] /\
+  map id (answer (locate zw_store [2%N] 0%N)) = [3%N] /\
+  map id (answer (locate zw_store [] 3%N)) = [2%N; 3%N] /\
+  answer (locate zw_store [3%N] 1%N) = [].
+Proof. exact any_work_example. Qed.
+
 Print Assumptions C13_cap.
 Print Assumptions C13_locator_is_spec.
 Print Assumptions C13_locator_shape.
@@ -108,3 +175,12 @@ Print Assumptions C13_locate_safe.
 Print Assumptions C13_spec_meaning.
 Print Assumptions C13_example_locator.
 Print Assumptions C13_example_locate.
+Print Assumptions C13_tip_chain_any_work.
+Print Assumptions C13_tip_chain_valid.
+Print Assumptions C13_locator_is_spec_any_work.
+Print Assumptions C13_locator_shape_any_work.
+Print Assumptions C13_locator_length_any_work.
+Print Assumptions C13_locate_any_work.
+Print Assumptions C13_locate_safe_any_work.
+Print Assumptions C13_spec_meaning_any_work.
+Print Assumptions C13_example_any_work.
